@@ -631,6 +631,10 @@ func runC20(c *Ctx) {
 	checkGeneratedRegexp(c)
 	checkErrBranchFails(c, "errors-surface.error-branch-fails", errBranchExceptions, "pkg/model")
 	checkStateToKeyTable(c, "builder.state-to-key")
+	checkModelOptionSettersVerbatim(c, "descriptors.option-setters-verbatim")
+	if checkUnmarshalIsPlain(c, "descriptors.unmarshal-is-plain") < 2 {
+		c.fail("descriptors.unmarshal-is-plain", "pkg/model:decoders", "-", "expected at least 2 yaml decoders in pkg/model")
+	}
 }
 
 // mayCoincide: can two templates produce the same string (segment-wise unification; slots match any text without '/')?
